@@ -258,6 +258,9 @@ Definition c06_dump (m : mon) (d : dump) : string :=
          (if ds_removable q && Nat.eqb (List.length (ds_workers q)) 0
              && match ds_cleanup q with None => true | Some _ => false end
           then ["C06:workerless-queue-has-no-timeout"] else [])
+         ++ (if negb (Nat.eqb (List.length (ds_workers q)) 0)
+                && match ds_cleanup q with Some _ => true | None => false end
+             then ["C06:queue-removal-armed-while-it-has-workers"] else [])
          ++ map (fun w =>
               match dw_cleanup w with
               | Some _ => ""
